@@ -1,7 +1,143 @@
 //! `idx ...` commands: the crate-private blob index through the H2 probe (cfg pearl_verif).
 use crate::storage_cmds::St;
+use crate::util::*;
 use crate::Ctx;
+use pearl::verif::{HeaderView, IndexProbe};
+use pearl::{ArrayKey, ReadResult};
+use std::collections::HashMap;
+use std::sync::Mutex;
 
-pub async fn cmd_idx<const N: usize>(_st: &mut St<N>, ctx: &mut Ctx, args: &[&str]) {
-    ctx.emit(format!("HARNESS-ERROR idx not implemented {:?}", args));
+// probes live for the duration of one script; keyed by (script dir, id)
+static PROBES: Mutex<Option<HashMap<String, Box<dyn std::any::Any + Send>>>> = Mutex::new(None);
+
+fn hv(h: &HeaderView) -> String {
+    format!("({},{},{},{},{})", h.timestamp, if h.deleted { 1 } else { 0 }, h.meta_size, h.data_size, h.blob_offset)
+}
+
+fn key_of<const N: usize>(hex: &str) -> ArrayKey<N> {
+    ArrayKey::<N>::from(hex_decode(hex))
+}
+
+pub async fn cmd_idx<const N: usize>(st: &mut St<N>, ctx: &mut Ctx, args: &[&str]) {
+    let pkey = |id: &str| format!("{}#{}", st.dir.display(), id);
+    macro_rules! take {
+        ($id:expr) => {{
+            let mut g = PROBES.lock().unwrap();
+            let m = g.get_or_insert_with(HashMap::new);
+            match m.remove(&pkey($id)) {
+                Some(b) => match b.downcast::<IndexProbe<ArrayKey<N>>>() {
+                    Ok(p) => *p,
+                    Err(_) => {
+                        ctx.emit("HARNESS-ERROR probe type");
+                        return;
+                    }
+                },
+                None => {
+                    ctx.emit(format!("HARNESS-ERROR no probe {}", $id));
+                    return;
+                }
+            }
+        }};
+    }
+    macro_rules! put {
+        ($id:expr, $p:expr) => {{
+            let mut g = PROBES.lock().unwrap();
+            g.get_or_insert_with(HashMap::new).insert(pkey($id), Box::new($p));
+        }};
+    }
+    match args {
+        ["new", id, bloom] => {
+            let bc = if *bloom == "none" { None } else { Some(crate::bloom_cmds::config_from_bytes(&hex_decode(bloom))) };
+            let p: IndexProbe<ArrayKey<N>> = IndexProbe::new(&st.dir, id.parse().unwrap(), bc);
+            put!(id, p);
+            ctx.emit("idx new");
+        }
+        ["push", id, key, ts, del, msize, dsize, off] => {
+            let p = take!(id);
+            let r = p.push(&key_of::<N>(key), ts.parse().unwrap(), *del == "1", msize.parse().unwrap(), dsize.parse().unwrap(), off.parse().unwrap());
+            put!(id, p);
+            ctx.emit(match r { Ok(()) => "idx push ok".to_string(), Err(e) => format!("idx push Err {}", err_class(&e)) });
+        }
+        ["dump", id, bsize] => {
+            let mut p = take!(id);
+            let r = p.dump(bsize.parse().unwrap()).await;
+            put!(id, p);
+            ctx.emit(match r { Ok(n) => format!("idx dump {}", n), Err(e) => format!("idx dump Err {}", err_class(&e)) });
+        }
+        ["load", id, bsize] => {
+            let mut p = take!(id);
+            let r = p.load(bsize.parse().unwrap()).await;
+            put!(id, p);
+            ctx.emit(match r { Ok(()) => "idx load ok".to_string(), Err(e) => format!("idx load Err {}", err_class(&e)) });
+        }
+        ["open", id, bloom, bsize] => {
+            let bc = if *bloom == "none" { None } else { Some(crate::bloom_cmds::config_from_bytes(&hex_decode(bloom))) };
+            match IndexProbe::<ArrayKey<N>>::open(&st.dir, id.parse().unwrap(), bc, bsize.parse().unwrap()).await {
+                Ok(p) => { put!(id, p); ctx.emit("idx open ok"); }
+                Err(e) => ctx.emit(format!("idx open Err {}", err_class(&e))),
+            }
+        }
+        ["latest", id, key] => {
+            let p = take!(id);
+            let r = p.get_latest(&key_of::<N>(key)).await;
+            put!(id, p);
+            ctx.emit(match r {
+                Ok(ReadResult::Found(h)) => format!("idx latest Found {}", hv(&h)),
+                Ok(ReadResult::Deleted(t)) => format!("idx latest Deleted {}", Into::<u64>::into(t)),
+                Ok(ReadResult::NotFound) => "idx latest NotFound".to_string(),
+                Err(e) => format!("idx latest Err {}", err_class(&e)),
+            });
+        }
+        ["all", id, key] => {
+            let p = take!(id);
+            let r = p.get_all_with_deletion_marker(&key_of::<N>(key)).await;
+            put!(id, p);
+            ctx.emit(match r {
+                Ok(v) => format!("idx all [{}]", v.iter().map(hv).collect::<Vec<_>>().join(" ")),
+                Err(e) => format!("idx all Err {}", err_class(&e)),
+            });
+        }
+        ["count", id] => {
+            let p = take!(id);
+            let c = p.count();
+            let od = p.on_disk();
+            put!(id, p);
+            ctx.emit(format!("idx count {} ondisk={}", c, if od { 1 } else { 0 }));
+        }
+        ["filter", id, key] => {
+            let p = take!(id);
+            let r = p.check_filter(&key_of::<N>(key)).await;
+            put!(id, p);
+            ctx.emit(format!("idx filter {}", match r { pearl::FilterResult::NeedAdditionalCheck => "maybe", pearl::FilterResult::NotContains => "no" }));
+        }
+        ["offload", id] => {
+            let mut p = take!(id);
+            let n = p.offload_filter();
+            put!(id, p);
+            ctx.emit(format!("idx offload {}", if n > 0 { "freed" } else { "0" }));
+        }
+        ["clear", id] => {
+            let mut p = take!(id);
+            p.clear();
+            put!(id, p);
+            ctx.emit("idx clear");
+        }
+        ["filehex", id] => {
+            let path = st.dir.join(format!("probe.{}.index", id));
+            match std::fs::read(&path) {
+                Ok(mut b) => {
+                    // the SHA-256 field (bytes 40..72 of the header) is not modelled: masked
+                    if b.len() >= 72 { for x in &mut b[40..72] { *x = 0; } }
+                    ctx.emit(format!("idx filehex {}", hex_encode(&b)));
+                }
+                Err(_) => ctx.emit("idx filehex absent"),
+            }
+        }
+        ["drop", id] => {
+            let p = take!(id);
+            drop(p);
+            ctx.emit("idx drop");
+        }
+        _ => ctx.emit(format!("HARNESS-ERROR bad idx command {:?}", args)),
+    }
 }
